@@ -59,6 +59,38 @@ DEBUG_OBSERVERS = {
 }
 
 
+def debug_only_fn_observes(fd, fr, bd):
+    """A function compiled only with debug assertions is harmless when everything it does is what debug-only code
+    inside a shared function may do: pure calls, known observers, writes to debug-only fields, other debug-only
+    functions of the same kind, and the infinite-loop detector's report (emit_error with the constant
+    InternalErrorInfiniteLoop - unreachable by R-PROGRESS)."""
+    for n, par in live_walk(bd["hir"]):
+        k = n.get("k")
+        if k in ("Call", "MethodCall"):
+            c = F.callee(n)
+            if not c or c.endswith(("::Some", "::Ok", "::Err", "::None")) or n.get("ctor"):
+                continue
+            if c in DEBUG_OBSERVERS or not effectful(fd, c):
+                continue
+            if c == "Lexer::emit_error":
+                args = n.get("args") or []
+                a = F.strip(args[-1]) if args else {}
+                if a.get("k") == "Path" and (F.const_of(a) or "").endswith("ErrorKind::InternalErrorInfiniteLoop"):
+                    continue
+                return False
+            if c in fd.bodies and c not in fr.bodies and c != bd.get("name") and debug_only_fn_observes(fd, fr, fd.bodies[c]):
+                continue
+            return False
+        elif k in ("Assign", "AssignOp"):
+            ch = field_chain(n["l"])
+            # a store into a plain local is fine; a store through self / a reference must hit a debug-only field
+            if len(ch) > 1 and ch[-1] not in DEBUG_ONLY_FIELDS:
+                return False
+            if len(ch) == 1 and ch[0] == "?":
+                return False
+    return True
+
+
 def r_cfgdiff_debug(cx, dev_tag="dev-none-stable", rel_tag="rel-none-stable"):
     """Debug-only code may only observe: read, panic, print, write debug-only fields (C19)."""
     rule = "R-CFGDIFF-DEBUG"
@@ -71,7 +103,12 @@ def r_cfgdiff_debug(cx, dev_tag="dev-none-stable", rel_tag="rel-none-stable"):
         br = fr.bodies.get(name)
         if br is None:
             # function exists only with debug assertions
-            ok = name in DEBUG_OBSERVERS
+            ok = name in DEBUG_OBSERVERS or debug_only_fn_observes(fd, fr, bd)
+            if ok and name not in DEBUG_OBSERVERS:
+                cx.ob(rule, "debug-only-fn|%s" % name, True, bd["span"],
+                      "debug-only function %s only observes: pure calls, known observers, writes to debug-only fields, and "
+                      "the loop detector's InternalErrorInfiniteLoop report (unreachable: R-PROGRESS)" % name)
+                continue
             cx.ob(rule, "debug-only-fn|%s" % name, ok, bd["span"],
                   "debug-only function %s: %s" % (name, DEBUG_OBSERVERS.get(name, "")) if ok else
                   "function %s exists only in debug builds and is not a known observer" % name)
@@ -92,6 +129,8 @@ def r_cfgdiff_debug(cx, dev_tag="dev-none-stable", rel_tag="rel-none-stable"):
                 if kind == "call":
                     if what in DEBUG_OBSERVERS:
                         why = DEBUG_OBSERVERS[what]
+                    elif what in fd.bodies and what not in fr.bodies and debug_only_fn_observes(fd, fr, fd.bodies[what]):
+                        why = "debug-only function that only observes"
                     elif effectful(fd, what):
                         # the loop detector: emits InternalErrorInfiniteLoop and returns; discharged by R-PROGRESS
                         if name == "Lexer::lex" and what in ("Lexer::emit_error", "buffer::WorkTokenizedBuffer::into_detached", "cursor::Cursor::remaining_len"):
